@@ -1024,9 +1024,10 @@ def gen_traj_big(r, tier):
 def runave_scenario(c, k):
     v = {"id": 0, "type": "z", "value": True}
 
-    def mkconf(stride):
-        return heredoc(["colvarsTrajFrequency 1"] + var_block(v, ["  runAve on", "  runAveLength %d" % c["L"], "  runAveStride %d" % stride]))
+    def mkconf(stride, L_=None):
+        return heredoc(["colvarsTrajFrequency 1"] + var_block(v, ["  runAve on", "  runAveLength %d" % (L_ or c["L"]), "  runAveStride %d" % stride]))
     conf = mkconf(c["stride"])
+    curstride, curL = c["stride"], c["L"]
     seg = 0
     L = ["echo CASE %d" % k, "natoms 2", "temperature 300", "dt 1.0", "prefix c%ds%d" % (k, seg), "new"]
     if c["it0"]:
@@ -1041,7 +1042,10 @@ def runave_scenario(c, k):
             seg += 1
             f = "c%d_%d.state" % (k, seg)
             if len(ev) > 1 and ev[1]:
-                conf = mkconf(ev[1])          # the resumed job uses another stride
+                curstride = ev[1]             # the resumed job uses another stride
+            if len(ev) > 2 and ev[2]:
+                curL = ev[2]                  # ... or a shorter window
+            conf = mkconf(curstride, curL)
             L += ["flush", "save %s %s" % (c.get("fmt", "text"), f), "prefix c%ds%d" % (k, seg), "fresh"] + conf + ["load %s" % f]
     L += ["flush", "echo END %d" % k]
     return L
@@ -1055,7 +1059,7 @@ def segments_of(c, carry=True):
     segs = []
     it = c["it0"]
     fileno = 0
-    cur = {"it_restart": it, "hist": [], "files": [0], "stride": c["stride"]}
+    cur = {"it_restart": it, "hist": [], "files": [0], "stride": c["stride"], "L": c["L"], "after": None, "known_from": None}
     first, boundary = True, False
     for ev in c["events"]:
         if ev[0] == "step":
@@ -1072,12 +1076,23 @@ def segments_of(c, carry=True):
             rel = it - cur["it_restart"]
             t0 = cur["hist"][0][0] if cur["hist"] else None
             newstride = ev[1] if len(ev) > 1 and ev[1] else cur["stride"]
-            if carry and c["L"] > 1 and t0 is not None and rel > t0 and rel % cur["stride"] == 0 and newstride == cur["stride"]:
+            newL = ev[2] if len(ev) > 2 and ev[2] else cur["L"]
+            aligned = carry and cur["L"] > 1 and t0 is not None and rel > t0 and rel % cur["stride"] == 0 and newstride == cur["stride"]
+            if aligned and newL == cur["L"]:
                 cur["files"].append(fileno)       # same series, next file; the recomputed step is a repeated step
+                boundary = True
+            elif aligned and newL > 1:
+                # another window length: the new job knows the newest L-1 sampled values (those of steps S, S-s, ..) and goes on
+                # with the series of an uninterrupted run with the new window, as far as those values reach
+                segs.append(cur)
+                kf = it - (cur["L"] - 2) * cur["stride"]
+                kf = max(kf, cur["it_restart"] + (t0 // cur["stride"] + 1) * cur["stride"], cur["known_from"] or kf)
+                cur = {"it_restart": cur["it_restart"], "hist": list(cur["hist"]), "files": [fileno], "stride": newstride, "L": newL,
+                       "after": it, "known_from": kf}
                 boundary = True
             else:
                 segs.append(cur)
-                cur = {"it_restart": it, "hist": [], "files": [fileno], "stride": newstride}
+                cur = {"it_restart": it, "hist": [], "files": [fileno], "stride": newstride, "L": newL, "after": None, "known_from": None}
                 first, boundary = True, False
     segs.append(cur)
     return segs
@@ -1111,7 +1126,7 @@ def runave_oracle(L, stride, xs, tmax):
 def check_runave_case(run, c, k, impl_lines, scratch, model):
     segs = segments_of(c)
     replay = {"kind": "runave", "case": c}
-    lines = ["RUNAVE %d %d %d %d %s" % (c["L"], s["stride"], 0, len(s["hist"]), " ".join("%d %s" % (t, hx(x)) for t, it, x in s["hist"]))
+    lines = ["RUNAVE %d %d %d %d %s" % (s["L"], s["stride"], 0, len(s["hist"]), " ".join("%d %s" % (t, hx(x)) for t, it, x in s["hist"]))
              for s in segs]
     rc, mout, err = V.run_lines(model, lines)
     if rc != 0 or len(mout) != len(segs):
@@ -1124,9 +1139,9 @@ def check_runave_case(run, c, k, impl_lines, scratch, model):
             rows += parse_numfile(os.path.join(scratch, "c%ds%d.v0.runave.traj" % (k, fno)))[1]
         xs = dedup(s["hist"])
         tmax = max(xs) if xs else -1
-        orc = runave_oracle(c["L"], s["stride"], xs, tmax)
+        orc = runave_oracle(s["L"], s["stride"], xs, tmax)
         # ---- oracle: every written line is the window mean / sample stddev at the step it carries
-        if rows and s["it_restart"] and [st for st, _ in rows] == [t for t in sorted(orc) if t >= c["L"] * s["stride"]][:len(rows)]:
+        if rows and s["it_restart"] and [st for st, _ in rows] == [t for t in sorted(orc) if t >= s["L"] * s["stride"]][:len(rows)]:
             run.violation("runave:step-label", "the lines carry the steps %s counted from the last restart (step %d), not the "
                           "steps %s at which the values held" % ([st for st, _ in rows][:6], s["it_restart"],
                                                                   [st + s["it_restart"] for st, _ in rows][:6]), replay)
@@ -1135,20 +1150,20 @@ def check_runave_case(run, c, k, impl_lines, scratch, model):
             t = step - s["it_restart"]
             if t not in orc:
                 run.violation("runave:step", "a line carries step %d (relative %d), where no full window of %d samples with stride %d ends"
-                              % (step, t, c["L"], s["stride"]), replay)
+                              % (step, t, s["L"], s["stride"]), replay)
                 continue
             m, var = orc[t]
             run.dist("oracle:runave-line")
             if not close(vals[0], float(m), OTOL):
-                win = [float(xs[t - j * s["stride"]]) for j in range(c["L"])]
+                win = [float(xs[t - j * s["stride"]]) for j in range(s["L"])]
                 run.violation("runave:mean", "step %d: running average %r, mean of the last %d samples %s is %r"
-                              % (step, vals[0], c["L"], win, float(m)), replay)
+                              % (step, vals[0], s["L"], win, float(m)), replay)
             elif var is not None and len(vals) > 1 and not close(vals[1], math.sqrt(var), OTOL):
                 run.violation("runave:stddev", "step %d: running stddev %r, sample standard deviation of the window is %r"
                               % (step, vals[1], math.sqrt(var)), replay)
         # lines must exist once the window is full (the value of relative step 0 is not sampled: the first
         # full window ends at relative step L*stride)
-        want_steps = [t + s["it_restart"] for t in sorted(orc) if t >= c["L"] * s["stride"]]
+        want_steps = [t + s["it_restart"] for t in sorted(orc) if t >= s["L"] * s["stride"] and (s["after"] is None or (t + s["it_restart"] > s["after"] and t + s["it_restart"] - (s["L"] - 1) * s["stride"] >= s["known_from"]))]
         got_steps = [st for st, _ in rows]
         if got_steps != want_steps and all((st - s["it_restart"]) in orc for st in got_steps):
             run.violation("runave:lines", "lines at steps %s, full windows end at steps %s" % (got_steps[:12], want_steps[:12]), replay)
@@ -1156,7 +1171,8 @@ def check_runave_case(run, c, k, impl_lines, scratch, model):
         mrows = []
         for part in mout[si].split(" ; "):
             t = part.split()
-            if t:
+            if t and (s["after"] is None or (int(t[0]) + s["it_restart"] > s["after"]
+                                             and int(t[0]) + s["it_restart"] - (s["L"] - 1) * s["stride"] >= s["known_from"])):
                 mrows.append((int(t[0]) + s["it_restart"], [float.fromhex(t[1]), float.fromhex(t[3])]))
         if [st for st, _ in rows] != [st for st, _ in mrows]:
             run.mismatch("runave:steps", c, [st for st, _ in rows][:12], [st for st, _ in mrows][:12])
@@ -1165,7 +1181,7 @@ def check_runave_case(run, c, k, impl_lines, scratch, model):
             n += 1
             if not close(a[0], b[0]):
                 run.mismatch("runave:mean", c, (st, a[0]), (st, b[0]))
-            elif c["L"] > 1 and not close(a[1], b[1], 1e-10):
+            elif s["L"] > 1 and not close(a[1], b[1], 1e-10):
                 run.mismatch("runave:stddev", c, (st, a[1]), (st, b[1]))
     return n
 
@@ -1184,7 +1200,7 @@ def gen_runave_case(r, tier):
         if u < 0.08:
             events += [["boundary"], ["step", last]]
         elif u < 0.12:
-            events += [["restart", r.choice([None, None, 1, 2, 3])], ["step", last]]
+            events += [["restart", r.choice([None, None, None, 1, 2, 3]), r.choice([None, None, 2, 3, 4])], ["step", last]]
         else:
             events.append(["step", V.dyadic(r, -8, 8, 3)])
     return {"kind": "runave", "L": L, "stride": stride, "it0": it0, "events": events, "fmt": r.choice(["text", "binary"])}
